@@ -1,4 +1,5 @@
 import Model.LockEdges
+import Model.Handoff
 import Driver.Util
 /-
 Line protocol of the C20 (lock order / lockset) correspondence:
@@ -8,6 +9,8 @@ Line protocol of the C20 (lock order / lockset) correspondence:
   edges                                → size of the expected table
   access <what> <func> <r|w> n l1 … ln → ok / bad: lockset rule of <what> on the must-held set
                                          (unknown <what> → bad-op)
+  handoff <spawner> <goroutine> <chan> <cap> <blocking sends> <cancellable sends>
+                                       → ok / bad: a joined goroutine's blocking sends fit the buffer
 -/
 namespace DriverC20
 open LockEdges Lock DriverUtil
@@ -34,6 +37,8 @@ def step (_ : Unit) (ts : List String) : Unit × List String :=
       if held.length != locks.length then ((), ["bad-op"])
       else ((), [if guardOk g held then "ok" else "bad"])
     | none => ((), ["bad-op"])
+  | ["handoff", _spawner, _gor, _ch, cap, sends, _cancellable] =>
+    ((), [if Handoff.handoffOk (nat! cap) (nat! sends) then "ok" else "bad"])
   | [] => ((), [])
   | _ => ((), ["bad-op"])
 
